@@ -789,7 +789,7 @@ Print Assumptions c11_stats_pair_wf.
      the code's denominator sqrt(0) is replaced by 1.0e-10 (t = dmean/1e-10), nu_denom = 0 by 1.0, so nu = 0;
      scipy's t.cdf(., df=0) is NaN (hypothesis nan_at_nu_zero, an observed fact about scipy), the p-value is 1
      and THE GENE IS NOT RECORDED however far apart the means are (all cells 2.0 against all cells 0.0: finding
-     F28, c11-constant-gene-not-recorded).
+     F33, c11-constant-gene-not-recorded).
    - otherwise (c11_welch_constant_gene_noise): a constant 0.7 in 9 cells has float variance -1.1e-16 (negative:
      sqrt gives NaN, NaN > 0 is false, denom = 1e-10 again, t = 7e9, but now nu_denom > 0 and nu = 8); a constant
      3.3 in 11 cells has +1.4e-15 (t = 2.9e8, nu = 10).  Such genes ARE recorded by the real code when their
